@@ -53,3 +53,20 @@ def tie(ck, stats, mx, run, sol, what):
         if se[:3] != me[:3] or (me[3] >= 0 and se[3] != me[3]):
             ck.obligation_broken(name + ": element %d of the solution file is %r, the model has %r" % (k, se, me), dict(files=run.files()))
             return
+    # the (anti)periodic pair list goes through the same numbering (`pbclist[i].x=newnum[pbclist[i].x]`); the magnetics solution file
+    # lists it after the per-label circuit records
+    if what == "fsolver" and os.path.exists(run.snap(".pbc")):
+        try:
+            pairs, _ = femmio.read_pbc(run.snap(".pbc"))
+            rest = [l.split() for l in sol["rest"] if l.strip()]
+            nl = int(rest[0][0])
+            npbc = int(rest[1 + nl][0])
+            got = [tuple(int(v) for v in r[:3]) for r in rest[2 + nl:2 + nl + npbc]]
+        except (ValueError, IndexError, OSError):
+            return
+        want = [(newnum[a], newnum[b], t) for (a, b, t) in pairs]
+        st["pbc_pairs"] = st.get("pbc_pairs", 0) + len(want)
+        if got != want:
+            k = next((i for i, (g, w) in enumerate(zip(got, want)) if g != w), min(len(got), len(want)))
+            ck.obligation_broken(name + ": (anti)periodic pair %d of the solution file is %r, the renumbered pair of the .pbc file is %r (%d vs %d pairs)"
+                                 % (k, got[k] if k < len(got) else None, want[k] if k < len(want) else None, len(got), len(want)), dict(files=run.files()))
